@@ -35,7 +35,7 @@ def h64(obj: Any) -> int:
 class CaseResult:
     """What one execution observed."""
     def __init__(self) -> None:
-        self.violations: list[tuple[str, str]] = []   # (finding key, human text)
+        self.violations: list[tuple] = []   # (finding key, human text, minimal replay case or None)
         self.transitions = 0                           # API calls executed under an oracle
         self.states: set[int] = set()                  # hashes of canonical states seen
         self.nontrivial: set[int] = set()              # hashes of distinct non-trivial post-states / inputs
@@ -43,8 +43,8 @@ class CaseResult:
         self.counters: collections.Counter = collections.Counter()
         self.sample: Any = None
 
-    def fail(self, key: str, text: str) -> None:
-        self.violations.append((key, text))
+    def fail(self, key: str, text: str, case: Any = None) -> None:
+        self.violations.append((key, text, case))
 
 
 class Shard:
@@ -72,8 +72,10 @@ class Shard:
         self.counters.update(res.counters)
         if res.sample is not None and len(self.samples) < 3:
             self.samples.append(res.sample)
-        for key, text in res.violations:
+        for key, text, sub in res.violations:
             self.violation_count += 1
+            if sub is not None:
+                case = sub
             size = len(json.dumps(case, default=str))
             cur = self.violations.get(key)
             if cur is None or size < cur[0]:
@@ -277,7 +279,7 @@ def replay_file(path: str, run_case: Callable[[Any], CaseResult], prop: str) -> 
     obs = []
     for _ in range(2):
         res = run_case(case)
-        obs.append(sorted(res.violations))
+        obs.append(sorted((k, t) for k, t, _ in res.violations))
     if obs[0] != obs[1]:
         print(f'HARNESS ERROR: replay of {path} is not deterministic: {obs}', file=sys.stderr)
         return 2
